@@ -115,6 +115,7 @@ pub fn grid(empty: bool) -> Vec<G> {
                                 hi,
                                 sink: sink.clone(),
                                 cfg,
+                                ctxb: 0,
                             };
                             out.push(G::Then(b(G::Rep(rep)), b(any_rest())));
                         }
